@@ -4,16 +4,25 @@
   C17, per codec X ∈ {audio, tcc, playout, abssend, abscapture}, value tokens
       audio `<level> <voice>` · tcc `<seq>` · playout `<min> <max>` · abssend `<ts>` ·
       abscapture `<ts> <opt int64>`:
-    c17.X.m   <value> <prev-receiver value>        => <res bytes> <opt (<res-unit> <value>)>
+    c17.X.m   <value> <prev-receiver value> <next value>  => <res bytes> <opt (<res-unit> <value>)> <kept>
               Marshal(value); if it succeeded, Unmarshal of the produced bytes into a receiver
-              holding `prev`, its result and the receiver afterwards
-    c17.X.u   <prev value> <list bytes> <bytes>    => <res-unit> <value>
-              a receiver holding `prev` decodes the listed byte strings (results ignored), then the
-              input under test: its result and the receiver afterwards
+              holding `prev`, its result and the receiver afterwards.  The caller keeps the decoded
+              value (a struct copy of the receiver), the same receiver then decodes Marshal(next)
+              (if `next` can be encoded); <kept>: the kept value still reports what it reported
+    c17.X.u   <prev value> <list bytes> <bytes>    => <res-unit> <value> <earlier> <prev-same>
+              a receiver built as a struct copy of `prev` decodes the listed byte strings (results
+              ignored; after each the caller keeps a struct copy of the receiver), then the input
+              under test: its result and the receiver afterwards; <earlier>: every kept value still
+              reports what it reported when it was decoded; <prev-same>: so does `prev`
   C18 (instants and durations are int64 nanoseconds; every observation is `ok …` | `panic`):
     c18.capture   <t>            => <Timestamp u64> <CaptureTime().UnixNano()>
     c18.ntp2time  <ntp u64>      => <CaptureTime().UnixNano() of Timestamp = ntp>      (correspondence only)
-    c18.offset    <t> <d>        => <Timestamp> <raw offset> <duration> <opt duration via the wire>
+    c18.offset    <t> <d> <opt (<how> <d2>)> => <Timestamp> <raw offset> <duration> <opt duration via the wire> <opt held duration>
+                  with `some how d2` the receiver that decodes the wire form is not a zero value: it is a
+                  struct copy of an extension constructed with offset d2 (how = 0), or it has decoded the wire
+                  form of such an extension before and the caller kept a struct copy of it (how = 1); the
+                  last token is what that held extension's EstimatedCaptureClockOffsetDuration returns AFTER
+                  the decode under test
     c18.offdur    <opt raw>      => <opt duration>                                     (correspondence only)
     c18.estimate  <send> <delay> => <NewAbsSendTime(send).Timestamp> <24-bit ts via the wire> <Estimate(send+delay).UnixNano()>
     c18.estraw    <ts u64> <recv> => <Estimate(recv).UnixNano()>                        (correspondence only)
@@ -41,18 +50,43 @@ def rdMObs {σ} (rd : Rd σ) : Rd (MObs σ) := do
   let rt ← Rd.opt (rdUn rd)
   pure ⟨out, rt⟩
 
+/-- `marshalOk` and: the value decoded from Marshal(v) is still that value after the receiver it was
+    copied from has decoded the next payload ("Unmarshal after Marshal is the identity" is about the
+    value the caller got; a value that changes behind the caller's back afterwards is not the one
+    that was decoded).  The models are pure functions on values, so the model's answer is `true`. -/
+def marshalOkKept {σ} [DecidableEq σ] (S : ExtSpec σ) (v : σ) (o : MObs σ × Bool) : Bool :=
+  marshalOk S v o.1 && o.2
+
+theorem marshalOkKept_of_marshalOk {σ} [DecidableEq σ] (S : ExtSpec σ) (v : σ) (o : MObs σ) :
+    marshalOk S v o = true → marshalOkKept S v (o, true) = true := by
+  intro h; simp [marshalOkKept, h]
+
 def marshalKind {σ} [DecidableEq σ] [Repr σ] (rd : Rd σ) (c : Codec σ) (S : ExtSpec σ) : Handler :=
-  mkHandler (do let v ← rd; let p ← rd; pure (v, p)) (rdMObs rd)
-    (fun (v, p) => modelM c v p)
-    (fun (v, _) o => marshalOk S v o)
+  mkHandler (do let v ← rd; let p ← rd; let _next ← rd; pure (v, p))
+    (do let o ← rdMObs rd; let k ← Rd.bool; pure (o, k))
+    (fun (v, p) => (modelM c v p, true))
+    (fun (v, _) o => marshalOkKept S v o)
     -- C17 quantifies over in-range values (exact layout, round trip) AND over the out-of-range values
     -- that must be refused (AudioLevel, PlayoutDelay); only values that are neither are outside it
     (fun (v, _) => S.inRange v || S.reject v)
 
+/-- `unmarshalOk` and: the values decoded EARLIER by the same receiver (struct copies the caller
+    kept) still report what they reported ("decodes every byte string … to the specified fields":
+    a decoded value that a later decode changes is no longer the value that byte string specifies).
+    The third component (the value the receiver was built from is unchanged) is compared with the
+    model only — C17 says nothing about it. -/
+def unmarshalOkKept {σ} [DecidableEq σ] (S : ExtSpec σ) (raw : Bytes) (o : Un σ × Bool × Bool) : Bool :=
+  unmarshalOk S raw o.1 && o.2.1
+
+theorem unmarshalOkKept_of_unmarshalOk {σ} [DecidableEq σ] (S : ExtSpec σ) (raw : Bytes) (o : Un σ) :
+    unmarshalOk S raw o = true → unmarshalOkKept S raw (o, true, true) = true := by
+  intro h; simp [unmarshalOkKept, h]
+
 def unmarshalKind {σ} [DecidableEq σ] [Repr σ] (rd : Rd σ) (c : Codec σ) (S : ExtSpec σ) : Handler :=
-  mkHandler (do let p ← rd; let h ← Rd.list Rd.bytes; let b ← Rd.bytes; pure (p, h, b)) (rdUn rd)
-    (fun (p, h, b) => modelU c p h b)
-    (fun (_, _, b) o => unmarshalOk S b o)
+  mkHandler (do let p ← rd; let h ← Rd.list Rd.bytes; let b ← Rd.bytes; pure (p, h, b))
+    (do let u ← rdUn rd; let e ← Rd.bool; let ps ← Rd.bool; pure (u, e, ps))
+    (fun (p, h, b) => (modelU c p h b, true, true))
+    (fun (_, _, b) o => unmarshalOkKept S b o)
     -- "decodes every byte string of at least the fixed size …, rejects shorter input, never panics":
     -- every byte string is inside the quantifier
 
@@ -79,14 +113,31 @@ def capture : Handler :=
 def ntp2time : Handler :=
   mkHandler Rd.u64 (Rd.res Rd.i64) (fun t => .ok (captureTime t)) (fun _ _ => true) (fun _ => false)
 
+/-- "a capture clock offset given as a duration of magnitude below 2^31 s is recovered by
+    EstimatedCaptureClockOffsetDuration within 1 ns, sign included" for the HELD extension of
+    `c18.offset`: it was given `d2`, and it is read after another value that shares its history has
+    decoded a payload.  Nothing is demanded when there is no held extension or `d2` is out of range. -/
+def heldOk (h : Option (Nat × Int64)) (k : Option Int64) : Bool :=
+  match h with
+  | none => true
+  | some (_, d2) =>
+    !offsetOk d2.toInt ||
+    (match k with
+     | some b2 => Rtp.Pred.C18.offset d2.toInt b2.toInt
+     | none => false)
+
 def offset : Handler :=
-  mkHandler (do let t ← Rd.i64; let d ← Rd.i64; pure (t, d))
+  mkHandler (do let t ← Rd.i64; let d ← Rd.i64
+                let h ← Rd.opt (do let how ← Rd.nat; let d2 ← Rd.i64; pure (how, d2))
+                pure (t, d, h))
     (Rd.res (do let ts ← Rd.u64; let raw ← Rd.i64; let b ← Rd.i64; let w ← Rd.opt Rd.i64
-                pure (ts, (⟨raw, b, w⟩ : OffsetObs))))
-    (fun (t, d) => let raw := encodeOffset d
-      .ok (captureTimestamp t, ⟨raw, decodeOffset raw, some (decodeOffset raw)⟩))
-    (fun (_, d) => okPred (fun (_, o) => offsetOkObs d o))
-    (fun (t, d) => instantOk t.toInt && offsetOk d.toInt)
+                let k ← Rd.opt Rd.i64
+                pure (ts, (⟨raw, b, w⟩ : OffsetObs), k)))
+    (fun (t, d, h) => let raw := encodeOffset d
+      .ok (captureTimestamp t, ⟨raw, decodeOffset raw, some (decodeOffset raw)⟩,
+           h.map (fun (_, d2) => decodeOffset (encodeOffset d2))))
+    (fun (_, d, h) => okPred (fun (_, o, k) => offsetOkObs d o && heldOk h k))
+    (fun (t, d, _) => instantOk t.toInt && offsetOk d.toInt)
 
 def offdur : Handler :=
   mkHandler (Rd.opt Rd.i64) (Rd.res (Rd.opt Rd.i64)) (fun o => .ok (o.map decodeOffset))
